@@ -32,7 +32,7 @@ Definition ok (c : case) : bool :=
   let cfg := c_cfg c in
   (* unknown fields STAY retrievable: reading the restored error (typed extractors through every key, FindKeys,
      renderers) and unmarshaling the input again leave its observable state as it was *)
-  uo_stable o &&
+  uo_stable_m o &&
   match c_in c, c_decerr c with
   | Some (DD msg kind ty fields stack causes unk), false =>
       let known := kind_known cfg kind in
